@@ -1475,10 +1475,16 @@ def Calc_projector(oldMesh: Mesh, newMesh: Mesh) -> sp.csr_matrix:
         lines.extend(np.repeat(nodes, nPe))
         columns.extend(np.asarray(list(connect_e[element]) * nodes.size))
 
-    [
-        FuncExtend_Proj(element, np.asarray(connect))
-        for element, connect in zip(detectedElements_e, connect_e_n)
-    ]
+    # A node lying on an edge / vertex shared by several old elements is detected in each of
+    # them, but `coordo_n` holds its reference coordinates in the last one only. Interpolate it
+    # in that element alone (as `Evaluate_dofsValues_at_coordinates` does), otherwise the row
+    # sums to the number of elements sharing the node.
+    assigned = np.zeros(newMesh.Nn, dtype=bool)
+    for element, connect in zip(detectedElements_e[::-1], connect_e_n[::-1]):
+        nodes = np.asarray(connect, dtype=int)
+        nodes = nodes[~assigned[nodes]]
+        assigned[nodes] = True
+        FuncExtend_Proj(element, nodes)
 
     proj = sp.csr_matrix(
         (values, (lines, columns)), (newMesh.Nn, oldMesh.Nn), dtype=float
